@@ -22,7 +22,7 @@
    never remembered as a load, so once everything is readable again the lazy index answers like the
    fully loaded one, whatever was accessed while it was not. *)
 From Coq Require Import NArith List Bool.
-From DvcData Require Import Base.Val Model.IndexLoad Proofs.IndexLoadBase Proofs.IndexLoadProofs Proofs.IndexLoadMore Proofs.IndexLoadThms Proofs.IndexLoadExplicit Proofs.IndexLoadDecide Proofs.IndexLoadFaults Gen.IdxLoad Proofs.IndexLoadTie Model.FileLoad Proofs.FileLoadProofs.
+From DvcData Require Import Base.Val Model.IndexLoad Proofs.IndexLoadBase Proofs.IndexLoadProofs Proofs.IndexLoadMore Proofs.IndexLoadThms Proofs.IndexLoadExplicit Proofs.IndexLoadDecide Proofs.IndexLoadFaults Gen.IdxLoad Proofs.IndexLoadTie Model.FileLoad Proofs.FileLoadProofs Gen.FileLoadGen Proofs.FileLoadTie.
 Import ListNotations.
 Open Scope N_scope.
 
@@ -285,3 +285,33 @@ Theorem C17_file_storage_refused_load_not_remembered :
   forall p w k i, idx_load_file p w k i = None <-> (forall l, load_file p w k <> FlOk l).
 Proof. exact idx_load_file_refused. Qed.
 Print Assumptions C17_file_storage_refused_load_not_remembered.
+
+(* ---- the FileStorage loading model is what the source says (unit fileload, regenerated on every run) ------- *)
+Theorem C17_file_storage_get_is_source :
+  forall p k,
+    fsget_asserts_prefix = true /\ fsget_strips_prefix = true /\
+    fs_rel p k = if is_prefix p k then Some (fsget_rel (length p) 0 k) else None.
+Proof. exact fs_rel_is_source_get. Qed.
+Print Assumptions C17_file_storage_get_is_source.
+
+Theorem C17_file_storage_load_is_source :
+  forall p w k,
+    fls_refuses_missing = true /\ fls_stores_under_new_key = true /\
+    load_file p w k =
+    match fs_rel p k with
+    | None => FlAssert
+    | Some rel =>
+        if ws_exists w rel
+        then FlOk (map (fun n => (fls_child_key k (skipn (length rel) (f_key n)), fs_entry n)) (below rel w))
+        else FlMissing
+    end.
+Proof. exact load_file_is_source. Qed.
+Print Assumptions C17_file_storage_load_is_source.
+
+Theorem C17_file_storage_entry_is_source :
+  forall n,
+    be_compute_hash_default = false /\
+    e_hash (fs_entry n) = be_hash_when_not_computed /\
+    e_loaded (fs_entry n) = be_loaded_flag (f_dir n).
+Proof. exact fs_entry_is_source. Qed.
+Print Assumptions C17_file_storage_entry_is_source.
